@@ -206,7 +206,12 @@ def check_wrapper(ctx, u, rec):
     def is_load(n):
         n = strip(n)
         # through the class's own load() / conversion operator (themselves checked to be OnLoadSt::fn(value))
-        if n.get('kind') == 'CXXMemberCallExpr' and (member_call_object(n) is None or is_this(member_call_object(n))):
+        def _self(o):
+            o0 = strip(o) if o is not None else None
+            while o0 is not None and o0.get('kind') in ('ImplicitCastExpr', 'ParenExpr') and kids(o0):
+                o0 = strip(kids(o0)[0])
+            return o is None or is_this(o) or (o0 is not None and o0.get('kind') == 'UnaryOperator' and o0.get('opcode') == '*' and is_this(o0['inner'][0]))
+        if n.get('kind') == 'CXXMemberCallExpr' and _self(member_call_object(n)):
             d = callee_decl(n, u)
             if d is not None and (d.get('name') == 'load' or d.get('kind') == 'CXXConversionDecl') and not call_args(n):
                 return True
@@ -290,6 +295,8 @@ def check_wrapper(ctx, u, rec):
                 return ('this',)
             if k == 'BinaryOperator' and e0.get('opcode') in OPS.values():
                 return ('bin', e0['opcode'], term(e0['inner'][0]), term(e0['inner'][1]))
+            if int_value(e0) is not None:
+                return ('const', int_value(e0))
             if k == 'UnaryOperator' and e0.get('opcode') in ('-', '~', '+'):
                 return ('un', e0['opcode'], term(e0['inner'][0]))
             if k in ('CXXTemporaryObjectExpr', 'CXXConstructExpr', 'CXXFunctionalCastExpr', 'CXXBindTemporaryExpr') or (k == 'DeclRefExpr' and 'std::' in (dtype(e0) or '')):
@@ -349,6 +356,8 @@ def check_wrapper(ctx, u, rec):
             k = s0.get('kind')
             if k == 'DeclStmt':
                 for vd in kids(s0):
+                    if vd.get('kind') in ('TypeAliasDecl', 'TypedefDecl', 'StaticAssertDecl', 'UsingDecl'):
+                        continue
                     if vd.get('kind') != 'VarDecl' or not kids(vd):
                         raise SymUnrec('declaration')
                     env[vd['id']] = bind(vd, kids(vd)[-1], term(kids(vd)[-1]))
@@ -362,7 +371,7 @@ def check_wrapper(ctx, u, rec):
             elif k == 'ReturnStmt':
                 ret = term(kids(s0)[0]) if kids(s0) else None
                 break
-            elif k == 'CXXMemberCallExpr':
+            elif k in ('CXXMemberCallExpr', 'CXXOperatorCallExpr'):
                 term(s0)
             else:
                 raise SymUnrec('statement `%s`' % src_text(s0, 40))
@@ -544,7 +553,32 @@ def check_wrapper(ctx, u, rec):
                     why = 'prefix %s returns %s, not the updated value' % (nm, simp(ret) if ret is not None else None)
             else:
                 good = True
-            ctx.check(good, R, mkey + '|shape', m, ('old = Load(value); value = Store(old %s 1); return old' if post else 'value = Store(Load(value) %s 1); return Load(value)') % op, why)
+            inc_und = None
+            if not good:
+                # another arrangement (load()/store(), `*this += 1`, a named next value): general symbolic execution
+                try:
+                    cur2, ret2 = sym_method(m, ('S', 'X0'), [('const', 0)] if post else [])
+                    def unn(t_):
+                        if isinstance(t_, tuple) and t_[0] == 'narrow' and t_[1].replace('const ', '') == exposed:
+                            return unn(t_[2])
+                        if isinstance(t_, tuple):
+                            return tuple(unn(x_) if isinstance(x_, tuple) else x_ for x_ in t_)
+                        return t_
+                    cur2, ret2 = unn(cur2), unn(ret2) if isinstance(ret2, tuple) else ret2
+                    want_c = ('S', ('bin', op, 'X0', ('const', 1)))
+                    want_r = 'X0' if post else ('bin', op, 'X0', ('const', 1))
+                    if cur2 == want_c and ret2 == want_r:
+                        good = True
+                    elif cur2 != want_c:
+                        why = 'the stored value is %s, not Store(Load(value) %s 1)' % (show_term(cur2), op)
+                    else:
+                        why = '%s %s returns %s, not %s' % ('postfix' if post else 'prefix', nm, show_term(ret2), 'the value the object held before' if post else 'the updated value')
+                except SymUnrec as e_:
+                    inc_und = str(e_)
+            if inc_und is not None:
+                ctx.undecided(R, mkey + '|shape', m, '%s is not written in a form the rule reads (%s)' % (nm, inc_und))
+            else:
+                ctx.check(good, R, mkey + '|shape', m, ('old = Load(value); value = Store(old %s 1); return old' if post else 'value = Store(Load(value) %s 1); return Load(value)') % op, why)
         elif nm in ('load',) or m.get('kind') == 'CXXConversionDecl':
             ok = len(rets) == 1 and kids(rets[0]) and is_load(kids(rets[0])[0])
             ctx.check(ok, R, mkey + '|returns-loaded', m, 'returns OnLoadSt::fn(value)', 'does not return OnLoadSt::fn(value)')
@@ -574,6 +608,8 @@ def show_term(t):
             return '*this'
         if t[0] == 'un':
             return '%s%s' % (t[1], show_term(t[2]))
+        if t[0] == 'const':
+            return str(t[1])
         return str(t)
     return {'X0': 'Load(value)', 'D': 'delta'}.get(t, str(t))
 
